@@ -52,6 +52,9 @@ func run(c *hc.Ctx) {
 	// L2 operand preparation: the real AddPathEndpoints against its model
 	c.WithStream("c02-endpoints", func() { runEndpoints(c, c.N) })
 
+	// recorded inputs of past failures first (own stream: the generated inputs below are unchanged)
+	c.WithStream("c02-corpus", func() { runCorpus(c) })
+
 	// L3 verdicts + final sweep/tracer state on real Settle runs
 	for it := 0; it < c.N; it++ {
 		P, class, _ := genInput(c)
